@@ -2,14 +2,20 @@
 package c04
 
 import (
+	"encoding/json"
 	"fmt"
+	"os"
+	"path/filepath"
 	"sort"
 	"strings"
 	"testing"
 
+	"github.com/modernizing/coca/pkg/application/call"
 	"github.com/modernizing/coca/pkg/application/rcall"
+	"github.com/modernizing/coca/pkg/domain/core_domain"
 	"pgregory.net/rapid"
 
+	"verif/internal/cli"
 	"verif/internal/dot"
 	"verif/internal/mgen"
 	"verif/internal/pbt"
@@ -20,127 +26,336 @@ type Case struct {
 	Target string     `json:"target"`
 }
 
-func gen(t *rapid.T) Case {
-	m := mgen.Gen(t, mgen.Options{Quotes: true})
-	methods := m.Methods()
-	target := "zz.Absent.nothing"
-	k := rapid.IntRange(0, 11).Draw(t, "targetKind")
-	if len(methods) > 0 && k > 0 {
-		target = rapid.SampledFrom(methods).Draw(t, "target")
-		if k < 9 {
-			// prefer a target that is called by somebody
-			declared := map[string]bool{}
-			for _, x := range methods {
-				declared[x] = true
-			}
-			var called []string
-			seen := map[string]bool{}
-			for _, caller := range methods {
-				for _, callee := range m.Calls()[caller] {
-					if declared[callee] && !seen[callee] {
-						seen[callee] = true
-						called = append(called, callee)
-					}
-				}
-			}
-			if len(called) > 0 {
-				target = rapid.SampledFrom(called).Draw(t, "calledTarget")
-			}
-		}
-	}
-	return Case{Model: m, Target: target}
+// SeqCase: several generations in one process on shared data, no reset between them.
+type SeqCase struct {
+	Models []mgen.Model `json:"models"`
+	Steps  []Step       `json:"steps"`
 }
 
-func check(c Case) pbt.Verdict {
-	rcall.VerifResetRcall()
-	model := c.Model.ToCoca()
-	var out string
-	var got map[string][]string
-	if p := pbt.Call(func() {
-		out = rcall.NewRCallGraph().Analysis(c.Target, model, func(m map[string][]string) { got = m })
-	}); p != "" {
-		return pbt.Fail("Analysis panicked: %s", p)
+type Step struct {
+	Kind   string `json:"kind"` // "rcall" | "lookup" (call.Analysis with lookup, what `coca call -l` runs)
+	Model  int    `json:"model"`
+	Target string `json:"target"`
+}
+
+// CliCase: the real binary, `coca rcall -c T` or `coca call -l -c T`.
+type CliCase struct {
+	Model  mgen.Model `json:"model"`
+	Mode   string     `json:"mode"` // "rcall" | "lookup"
+	Target string     `json:"target"`
+}
+
+// ---- reference -------------------------------------------------------------------------
+
+type ref struct {
+	declared map[string]bool
+	methods  []string            // full names of all functions in declaration order (an overload repeats its name)
+	calls    [][]string          // per function: callees with a receiver, in order
+	inv      map[string][]string // declared callee -> callers, one entry per call site
+	fwd      map[string][]string // name -> callees of all functions of that name
+}
+
+func newRef(m mgen.Model) ref {
+	r := ref{declared: map[string]bool{}, inv: map[string][]string{}, fwd: map[string][]string{}}
+	for _, c := range m.Classes {
+		for _, mm := range c.Methods {
+			name := c.Full() + "." + mm.Name
+			r.declared[name] = true
+			r.methods = append(r.methods, name)
+			var list []string
+			for _, cc := range mm.Calls {
+				if cc.Node != "" {
+					list = append(list, cc.Full())
+				}
+			}
+			r.calls = append(r.calls, list)
+			r.fwd[name] = append(r.fwd[name], list...)
+		}
 	}
-	// (a) the reverse map
-	declared := map[string]bool{}
-	for _, m := range c.Model.Methods() {
-		declared[m] = true
-	}
-	want := map[string][]string{}
-	calls := c.Model.Calls()
-	for _, caller := range c.Model.Methods() {
-		for _, callee := range calls[caller] {
-			if declared[callee] {
-				want[callee] = append(want[callee], caller)
+	for i, caller := range r.methods {
+		for _, callee := range r.calls[i] {
+			if r.declared[callee] {
+				r.inv[callee] = append(r.inv[callee], caller)
 			}
 		}
 	}
-	for k, list := range got {
-		if !declared[k] {
-			return pbt.Fail("reverse map has key %q which is not a method declared in the project", k)
-		}
-		for _, caller := range list {
-			if !declared[caller] {
-				return pbt.Fail("reverse map lists caller %q of %q which is not declared in the project", caller, k)
-			}
-		}
-		a, b := mgen.SortedCopy(list), mgen.SortedCopy(want[k])
-		if strings.Join(a, "\x00") != strings.Join(b, "\x00") {
-			return pbt.Fail("reverse map of %q is %v, the model's call sites give %v", k, a, b)
-		}
-	}
-	for k := range want {
-		if _, ok := got[k]; !ok {
-			return pbt.Fail("reverse map lacks %q, called by %v", k, want[k])
-		}
-	}
-	// (b) the graph
-	if lc, b := rcall.VerifLoopCountRcall(), rcall.VerifBudgetRcall(); lc > b {
-		return pbt.Fail("expansion counter %d exceeds budget %d", lc, b)
-	}
-	edges, err := dot.ParseFlat(out, "digraph G {")
-	if err != nil {
-		return pbt.Fail("reverse call graph is not well-formed DOT: %v\n%s", err, out)
-	}
-	if err := dot.Lenient(out); err != nil {
-		return pbt.Fail("reverse call graph rejected by the DOT parser: %v\n%s", err, out)
-	}
-	back := map[string]bool{c.Target: true}
-	stack := []string{c.Target}
+	return r
+}
+
+// back is the set of methods on a caller chain ending at target (target included).
+func (r ref) back(target string) map[string]bool {
+	back := map[string]bool{target: true}
+	stack := []string{target}
 	for len(stack) > 0 {
 		n := stack[len(stack)-1]
 		stack = stack[:len(stack)-1]
-		for _, a := range want[n] {
+		for _, a := range r.inv[n] {
 			if !back[a] {
 				back[a] = true
 				stack = append(stack, a)
 			}
 		}
 	}
+	return back
+}
+
+func (r ref) reach(root string) map[string]bool {
+	seen := map[string]bool{root: true}
+	stack := []string{root}
+	for len(stack) > 0 {
+		n := stack[len(stack)-1]
+		stack = stack[:len(stack)-1]
+		for _, c := range r.fwd[n] {
+			if !seen[c] {
+				seen[c] = true
+				stack = append(stack, c)
+			}
+		}
+	}
+	return seen
+}
+
+func contains(list []string, s string) bool {
+	for _, x := range list {
+		if x == s {
+			return true
+		}
+	}
+	return false
+}
+
+func sortedKeys(m map[string][]string) []string {
+	var out []string
+	for k := range m {
+		out = append(out, k)
+	}
+	sort.Strings(out)
+	return out
+}
+
+// judgeMap: the reverse map lists for each project method exactly its project callers, once per call site.
+func judgeMap(r ref, got map[string][]string) string {
+	for _, k := range sortedKeys(got) {
+		list := got[k]
+		if !r.declared[k] {
+			return fmt.Sprintf("reverse map has key %q which is not a method declared in the project", k)
+		}
+		for _, caller := range list {
+			if !r.declared[caller] {
+				return fmt.Sprintf("reverse map lists caller %q of %q which is not declared in the project", caller, k)
+			}
+		}
+		a, b := mgen.SortedCopy(list), mgen.SortedCopy(r.inv[k])
+		if strings.Join(a, "\x00") != strings.Join(b, "\x00") {
+			return fmt.Sprintf("reverse map of %q is %v, the model's call sites give %v", k, a, b)
+		}
+	}
+	for _, k := range sortedKeys(r.inv) {
+		if _, ok := got[k]; !ok {
+			return fmt.Sprintf("reverse map lacks %q, called by %v", k, r.inv[k])
+		}
+	}
+	return ""
+}
+
+// judgeGraph: the reverse call graph of target.
+func judgeGraph(r ref, target string, out string) string {
+	edges, err := dot.ParseFlat(out, "digraph G {")
+	if err != nil {
+		return fmt.Sprintf("reverse call graph is not well-formed DOT: %v\n%s", err, out)
+	}
+	if err := dot.Lenient(out); err != nil {
+		return fmt.Sprintf("reverse call graph rejected by the DOT parser: %v\n%s", err, out)
+	}
+	back := r.back(target)
 	has := map[dot.Edge]bool{}
 	for _, e := range edges {
 		has[e] = true
-		found := false
-		for _, a := range want[e.To] {
-			if a == e.From {
-				found = true
-			}
-		}
-		if !found {
-			return pbt.Fail("edge %q -> %q: the model has no call from %q to %q\n%s", e.From, e.To, e.From, e.To, out)
+		if !contains(r.inv[e.To], e.From) {
+			return fmt.Sprintf("edge %q -> %q: the model has no call from %q to %q\n%s", e.From, e.To, e.From, e.To, out)
 		}
 		if !back[e.To] {
-			return pbt.Fail("edge %q -> %q: %q is not on a caller chain ending at target %q\n%s", e.From, e.To, e.To, c.Target, out)
+			return fmt.Sprintf("edge %q -> %q: %q is not on a caller chain ending at target %q\n%s", e.From, e.To, e.To, target, out)
 		}
 	}
-	for _, caller := range want[c.Target] {
-		if caller != c.Target && !has[dot.Edge{From: caller, To: c.Target}] {
-			return pbt.Fail("direct caller %q of target %q has no edge\n%s", caller, c.Target, out)
+	for _, caller := range r.inv[target] {
+		if caller != target && !has[dot.Edge{From: caller, To: target}] {
+			return fmt.Sprintf("direct caller %q of target %q has no edge\n%s", caller, target, out)
 		}
 	}
-	// classification
+	return ""
+}
+
+// judgeLookup: the graph of `coca call -l`: forward calls from target plus the reverse call graph.
+// Only what this property states is asserted: every edge that is not a forward call is an edge of the
+// reverse graph, and every direct caller is present.
+func judgeLookup(r ref, target string, out string) string {
+	edges, err := dot.ParseFlat(out, "digraph G {", "rankdir = LR;")
+	if err != nil {
+		return fmt.Sprintf("lookup graph is not well-formed DOT: %v\n%s", err, out)
+	}
+	if err := dot.Lenient(out); err != nil {
+		return fmt.Sprintf("lookup graph rejected by the DOT parser: %v\n%s", err, out)
+	}
+	back, reach := r.back(target), r.reach(target)
+	has := map[dot.Edge]bool{}
+	for _, e := range edges {
+		has[e] = true
+		isFwd := reach[e.From] && contains(r.fwd[e.From], e.To)
+		isRev := back[e.To] && contains(r.inv[e.To], e.From)
+		if !isFwd && !isRev {
+			return fmt.Sprintf("lookup graph: edge %q -> %q is neither a call reachable from %q nor a project call on a caller chain ending at it\n%s", e.From, e.To, target, out)
+		}
+	}
+	for _, caller := range r.inv[target] {
+		if caller != target && !has[dot.Edge{From: caller, To: target}] {
+			return fmt.Sprintf("lookup graph: direct caller %q of target %q has no edge\n%s", caller, target, out)
+		}
+	}
+	return ""
+}
+
+// ---- generators ------------------------------------------------------------------------
+
+func genTarget(t *rapid.T, m mgen.Model) string {
+	r := newRef(m)
+	k := rapid.IntRange(0, 13).Draw(t, "targetKind")
+	if len(r.methods) == 0 || k == 0 {
+		return "zz.Absent.nothing"
+	}
+	switch {
+	case k < 9:
+		// prefer a target that is called by somebody
+		var called []string
+		seen := map[string]bool{}
+		for i := range r.methods {
+			for _, callee := range r.calls[i] {
+				if r.declared[callee] && !seen[callee] {
+					seen[callee] = true
+					called = append(called, callee)
+				}
+			}
+		}
+		if len(called) > 0 {
+			return rapid.SampledFrom(called).Draw(t, "calledTarget")
+		}
+	case k == 12:
+		// a name that is called but not declared (undeclared method, external method, constructor form)
+		var names []string
+		seen := map[string]bool{}
+		for i := range r.methods {
+			for _, callee := range r.calls[i] {
+				if !r.declared[callee] && !seen[callee] {
+					seen[callee] = true
+					names = append(names, callee)
+				}
+			}
+		}
+		if len(names) > 0 {
+			return rapid.SampledFrom(names).Draw(t, "undeclaredTarget")
+		}
+	case k == 13:
+		// a declared name without its first segment
+		full := rapid.SampledFrom(r.methods).Draw(t, "partialOf")
+		return full[strings.Index(full, ".")+1:]
+	}
+	return rapid.SampledFrom(r.methods).Draw(t, "target")
+}
+
+func gen(t *rapid.T) Case {
+	m := wGen(t, wOpts{Quotes: true, Overloads: true})
+	return Case{Model: m, Target: genTarget(t, m)}
+}
+
+func genSeq(t *rapid.T) SeqCase {
+	a := wGen(t, wOpts{Quotes: true, Overloads: true})
+	c := SeqCase{Models: []mgen.Model{a}}
+	switch rapid.IntRange(0, 3).Draw(t, "second") {
+	case 1, 2:
+		c.Models = append(c.Models, wMutate(t, a))
+	case 3:
+		c.Models = append(c.Models, wGen(t, wOpts{Quotes: true, Overloads: true}))
+	}
+	n := rapid.IntRange(2, 4).Draw(t, "nSteps")
+	for i := 0; i < n; i++ {
+		s := Step{Kind: "rcall", Model: rapid.IntRange(0, len(c.Models)-1).Draw(t, "stepModel")}
+		if rapid.IntRange(0, 3).Draw(t, "stepKind") == 3 {
+			s.Kind = "lookup"
+		}
+		s.Target = genTarget(t, c.Models[s.Model])
+		if i > 0 && rapid.IntRange(0, 2).Draw(t, "sameTarget") == 2 {
+			s.Target = c.Steps[i-1].Target
+		}
+		c.Steps = append(c.Steps, s)
+	}
+	return c
+}
+
+func genCli(t *rapid.T) CliCase {
+	m := wGen(t, wOpts{Quotes: true, Overloads: true})
+	c := CliCase{Model: m, Mode: "rcall", Target: genTarget(t, m)}
+	if rapid.IntRange(0, 2).Draw(t, "mode") == 2 {
+		c.Mode = "lookup"
+	}
+	return c
+}
+
+// ---- checks ----------------------------------------------------------------------------
+
+func copyMap(m map[string][]string) map[string][]string {
+	out := map[string][]string{}
+	for k, v := range m {
+		out[k] = append([]string(nil), v...)
+	}
+	return out
+}
+
+func reset() {
+	rcall.VerifResetRcall()
+	call.VerifResetCall()
+}
+
+// runRcall runs one reverse analysis and judges map and graph. The map is judged as handed to the
+// callback (that is what rcallmap.json holds) and again after the graph has been generated.
+func runRcall(r ref, target string, data []core_domain.CodeDataStruct) string {
+	var out string
+	var atCallback, got map[string][]string
+	calls := 0
+	if p := pbt.Call(func() {
+		out = rcall.NewRCallGraph().Analysis(target, data, func(m map[string][]string) {
+			calls++
+			atCallback = copyMap(m)
+			got = m
+		})
+	}); p != "" {
+		return "Analysis panicked: " + p
+	}
+	if calls == 0 {
+		return "the write callback was never called: no reverse map was delivered"
+	}
+	if msg := judgeMap(r, atCallback); msg != "" {
+		return msg
+	}
+	if msg := judgeMap(r, got); msg != "" {
+		return "after the graph was generated: " + msg
+	}
+	if lc, b := rcall.VerifLoopCountRcall(), rcall.VerifBudgetRcall(); lc > b {
+		return fmt.Sprintf("expansion counter %d exceeds budget %d", lc, b)
+	}
+	return judgeGraph(r, target, out)
+}
+
+func runLookup(r ref, target string, data []core_domain.CodeDataStruct) string {
+	var out string
+	if p := pbt.Call(func() { out = call.NewCallGraph().Analysis(target, data, true) }); p != "" {
+		return "call.Analysis with lookup panicked: " + p
+	}
+	return judgeLookup(r, target, out)
+}
+
+func classify(m mgen.Model, r ref, target string) pbt.Verdict {
 	v := pbt.Verdict{}
-	callers := want[c.Target]
+	callers := r.inv[target]
 	distinct := map[string]int{}
 	for _, a := range callers {
 		distinct[a]++
@@ -150,60 +365,253 @@ func check(c Case) pbt.Verdict {
 		if n >= 2 {
 			twice = true
 		}
-		if len(want[a]) > 0 && a != c.Target {
+		if len(r.inv[a]) > 0 && a != target {
 			deeper = true
 		}
-		if a == c.Target {
+		if a == target {
 			selfCall = true
 		}
 	}
 	v.NonTrivial = len(distinct) >= 2 || twice || deeper
+	add := func(s string) { v.Classes = append(v.Classes, s) }
 	if len(distinct) >= 2 {
-		v.Classes = append(v.Classes, "callers>=2")
+		add("callers>=2")
 	}
 	if twice {
-		v.Classes = append(v.Classes, "caller_calls_target_twice")
+		add("caller_calls_target_twice")
 	}
 	if deeper {
-		v.Classes = append(v.Classes, "caller_has_callers")
+		add("caller_has_callers")
 	}
 	if selfCall {
-		v.Classes = append(v.Classes, "target_calls_itself")
+		add("target_calls_itself")
 	}
 	if len(callers) == 0 {
-		v.Classes = append(v.Classes, "target_without_callers")
+		add("target_without_callers")
 	}
+	back := r.back(target)
 	cyc := false
 	for a := range back {
-		for _, b := range want[a] {
-			if b == c.Target && a != c.Target {
+		for _, b := range r.inv[a] {
+			if b == target && a != target {
 				cyc = true
 			}
 		}
 	}
 	if cyc {
-		v.Classes = append(v.Classes, "target_on_cycle")
+		add("target_on_cycle")
 	}
-	if strings.Contains(fmt.Sprint(c.Model.Methods()), "\"") {
-		v.Classes = append(v.Classes, "quoted_names")
+	if len(back) > rcall.VerifBudgetRcall() {
+		add("callers_beyond_budget")
+	}
+	if !r.declared[target] && len(r.reachedBy(target)) > 0 {
+		add("target_called_but_undeclared")
+	}
+	names := fmt.Sprint(r.methods)
+	if strings.Contains(names, "\"") {
+		add("quoted_names")
+	}
+	if strings.Contains(names, "$") {
+		add("dollar_names")
+	}
+	seen := map[string]bool{}
+	over := false
+	for _, n := range r.methods {
+		if seen[n] {
+			over = true
+		}
+		seen[n] = true
+	}
+	if over {
+		add("overloads")
+		dup := map[string]int{}
+		for _, n := range r.methods {
+			dup[n]++
+		}
+		for _, a := range callers {
+			if dup[a] > 1 {
+				add("overloaded_caller_of_target")
+				break
+			}
+		}
+		if dup[target] > 1 {
+			add("overloaded_target")
+		}
+	}
+	byName := map[string][]string{}
+	for _, c := range m.Classes {
+		byName[c.Name] = append(byName[c.Name], c.Pkg)
+		if c.Pkg == "" {
+			add("default_package")
+		}
+		if len(c.FieldCalls) > 0 {
+			add("class_level_calls")
+		}
+	}
+	for _, k := range sortedKeys(byName) {
+		if len(byName[k]) >= 2 {
+			add("class_name_in_two_packages")
+			break
+		}
 	}
 	var lines []string
-	for k, list := range want {
+	for k, list := range r.inv {
 		for _, a := range list {
 			lines = append(lines, a+">"+k)
 		}
 	}
 	sort.Strings(lines)
-	v.Canon = c.Target + "|" + strings.Join(lines, ";")
+	v.Canon = target + "|" + strings.Join(lines, ";")
+	return v
+}
+
+// reachedBy lists the functions that call name (declared or not).
+func (r ref) reachedBy(name string) []string {
+	var out []string
+	for i, caller := range r.methods {
+		if contains(r.calls[i], name) {
+			out = append(out, caller)
+		}
+	}
+	return out
+}
+
+func check(c Case) pbt.Verdict {
+	reset()
+	r := newRef(c.Model)
+	if msg := runRcall(r, c.Target, c.Model.ToCoca()); msg != "" {
+		return pbt.Fail("%s", msg)
+	}
+	return classify(c.Model, r, c.Target)
+}
+
+// checkLookup: the same reverse graph as part of call.Analysis(target, model, true) (`coca call -l`).
+func checkLookup(c Case) pbt.Verdict {
+	reset()
+	r := newRef(c.Model)
+	if msg := runLookup(r, c.Target, c.Model.ToCoca()); msg != "" {
+		return pbt.Fail("%s", msg)
+	}
+	v := classify(c.Model, r, c.Target)
+	v.Canon = "lookup|" + v.Canon
+	return v
+}
+
+func checkSeq(c SeqCase) pbt.Verdict {
+	reset()
+	var data [][]core_domain.CodeDataStruct
+	var refs []ref
+	for _, m := range c.Models {
+		data = append(data, m.ToCoca())
+		refs = append(refs, newRef(m))
+	}
+	v := pbt.Verdict{}
+	var canons []string
+	for i, s := range c.Steps {
+		if s.Model < 0 || s.Model >= len(c.Models) {
+			return pbt.Verdict{Skip: true}
+		}
+		var msg string
+		switch s.Kind {
+		case "rcall":
+			msg = runRcall(refs[s.Model], s.Target, data[s.Model])
+		case "lookup":
+			msg = runLookup(refs[s.Model], s.Target, data[s.Model])
+		default:
+			return pbt.Verdict{Skip: true}
+		}
+		if msg != "" {
+			return pbt.Fail("step %d (%s %q, model %d) after %d earlier generations in this process: %s", i, s.Kind, s.Target, s.Model, i, msg)
+		}
+		sub := classify(c.Models[s.Model], refs[s.Model], s.Target)
+		v.NonTrivial = v.NonTrivial || sub.NonTrivial
+		canons = append(canons, s.Kind+":"+sub.Canon)
+		v.Classes = append(v.Classes, "step_"+s.Kind)
+		if i > 0 && c.Steps[i-1].Model != s.Model {
+			v.Classes = append(v.Classes, "model_switched")
+		}
+		if i > 0 && c.Steps[i-1].Target == s.Target {
+			v.Classes = append(v.Classes, "same_target_again")
+		}
+	}
+	v.Canon = strings.Join(canons, "||")
+	return v
+}
+
+func checkCli(c CliCase) pbt.Verdict {
+	if c.Target == "" {
+		return pbt.Verdict{Skip: true} // `coca rcall` refuses an empty name
+	}
+	dir := cli.Scratch("c04-")
+	defer os.RemoveAll(dir)
+	data := c.Model.ToCoca()
+	if data == nil {
+		data = []core_domain.CodeDataStruct{}
+	}
+	deps, _ := json.Marshal(data)
+	cli.WriteTree(dir, map[string]string{"coca_reporter/deps.json": string(deps)})
+	args := []string{"rcall", "-c", c.Target}
+	if c.Mode == "lookup" {
+		args = []string{"call", "-l", "-c", c.Target}
+	}
+	res, err := cli.Run("coca", dir, nil, args...)
+	if err != nil {
+		panic("cannot run coca: " + err.Error())
+	}
+	if res.TimedOut {
+		return pbt.Verdict{Skip: true}
+	}
+	shown := "coca " + strings.Join(args, " ")
+	if res.ExitCode != 0 {
+		return pbt.Fail("`%s` exited with %d\n%s", shown, res.ExitCode, strings.ReplaceAll(res.Stderr, dir, "<scratch>"))
+	}
+	r := newRef(c.Model)
+	v := classify(c.Model, r, c.Target)
+	v.Canon = "cli|" + c.Mode + "|" + v.Canon
+	if c.Mode == "lookup" {
+		raw, err := os.ReadFile(filepath.Join(dir, "coca_reporter", "call.dot"))
+		if err != nil {
+			return pbt.Fail("`%s` wrote no coca_reporter/call.dot", shown)
+		}
+		if msg := judgeLookup(r, c.Target, string(raw)); msg != "" {
+			return pbt.Fail("`%s`, coca_reporter/call.dot: %s", shown, msg)
+		}
+		v.Classes = append(v.Classes, "cli_call_l")
+		return v
+	}
+	raw, err := os.ReadFile(filepath.Join(dir, "coca_reporter", "rcallmap.json"))
+	if err != nil {
+		return pbt.Fail("`%s` wrote no coca_reporter/rcallmap.json", shown)
+	}
+	var got map[string][]string
+	if err := json.Unmarshal(raw, &got); err != nil {
+		return pbt.Fail("`%s`: coca_reporter/rcallmap.json is not a JSON map of lists: %v\n%s", shown, err, string(raw))
+	}
+	if msg := judgeMap(r, got); msg != "" {
+		return pbt.Fail("`%s`, coca_reporter/rcallmap.json: %s", shown, msg)
+	}
+	graph, err := os.ReadFile(filepath.Join(dir, "coca_reporter", "rcall.dot"))
+	if err != nil {
+		return pbt.Fail("`%s` wrote no coca_reporter/rcall.dot", shown)
+	}
+	if msg := judgeGraph(r, c.Target, string(graph)); msg != "" {
+		return pbt.Fail("`%s`, coca_reporter/rcall.dot: %s", shown, msg)
+	}
+	v.Classes = append(v.Classes, "cli_rcall")
 	return v
 }
 
 func init() {
 	pbt.SetProperty("C04")
-	pbt.Describe("rapid-generated code models as in C03 (cycles, mutual recursion, repeated calls, external and undeclared callees, some names with a double quote) and a target (called method / any declared method / absent). Oracle: the inverse of the project-internal call relation computed from the abstract model, one entry per call site; backward reachability from the target. Non-trivial = the target has >= 2 distinct callers, or a caller calling it twice, or a caller that itself has callers; distinct = hash of (target, sorted inverse relation).",
+	pbt.Describe("rapid-generated code models as in C03's widened generator (cycles, mutual recursion, repeated calls, external and undeclared callees, receivers without package, constructors, class simple names shared between packages, the default package, class-level calls, names with a double quote or '$', call trees of 5-9 chained methods) plus overloads (two functions of one full name in a class), and a target (called method / any declared method / absent / called but undeclared / a declared name without its first segment). Sub-checks: rcall (RCallGraph.Analysis: map as handed to the callback and after graph generation, graph), lookup (the reverse part of call.Analysis(target, model, true)), seq (2-4 generations in one process without reset, on one or two models that share class and method names), cli (`coca rcall -c T`: rcallmap.json and rcall.dot; `coca call -l -c T`: call.dot). Oracle: the inverse of the project-internal call relation computed from the abstract model, one entry per call site; backward reachability from the target. Non-trivial = the target has >= 2 distinct callers, or a caller calling it twice, or a caller that itself has callers; distinct = hash of (target, sorted inverse relation).",
 		"names contain no backslash and no dot inside a simple name",
-		"a target that calls itself is not required to show a self edge (the statement exempts it)")
+		"a target that calls itself is not required to show a self edge (the statement exempts it)",
+		"in the lookup graph an edge that is a forward call reachable from the target is C03's subject; every other edge must be an edge of the reverse graph",
+		"the budget of the reverse traversal is read through the verif hook")
 	pbt.Register("rcall", 8000, 80000, gen, check)
+	pbt.Register("lookup", 3000, 30000, gen, checkLookup)
+	pbt.Register("seq", 3000, 30000, genSeq, checkSeq)
+	pbt.Register("cli", 60, 400, genCli, checkCli)
 }
 
 func TestProp(t *testing.T)   { pbt.Main(t) }
